@@ -151,6 +151,8 @@ def kernel_typing(ck, rule, only=None, note_events=None):
     for f, w, call in public_functions(prog):
         if only is not None and f.name not in only:
             continue
+        if f.name == "pow":
+            continue    # element-wise Python-int power with Decimal roots: outside every property's operator list
         al = operand_alias(f, w, call)
         for k in kernel_candidates(prog, f, call):
             params = k.params
@@ -196,6 +198,8 @@ def kernel_typing(ck, rule, only=None, note_events=None):
                            "result scaled by 2^(%s), sink expects 2^(n_frac)" % t.t.show(), pf.ret_stmt,
                            {"meaning": "the stored value is wrong by the factor 2^(%s)" % (t.t - want).show(), "witness": witness(t.t, want)})
                     continue
+                if k.qualname in results:
+                    events = results[k.qualname][1] + events     # events of all paths of the kernel
                 results[k.qualname] = (t, events, ret, pf)
                 ck.ok(rule, k, "%s : Code<n_frac> (operands %s)" % (k.name, ", ".join(sorted(t.ops))), pf.ret_stmt)
     ck.extra["kernels_typed"] = len(results)
@@ -216,11 +220,13 @@ def single_quantization(ck, rule, results, only=None):
         f = ck.prog.funcs[q]
         if only is not None and f.parent.name not in only:
             continue
-        badev = [e for e in events if e[0] in ("intcast", "round")]
+        badev = [e for e in events if e[0] in ("intcast", "round", "adjust", "recast")]
         # cumprod's int_array over the list of conversion factors is a Pow2 list, not a code: events only record casts of codes
         ck.check(not badev, rule, f, "the kernel result reaches the sink without an intermediate rounding or integer cast",
                  "%s applied inside the kernel: %s" % (badev[0][0], src(badev[0][1])[:90]) if badev else "", pf.ret_stmt,
-                 "a truncation before the sink's own rounding makes floor/ceil/around results wrong (double quantization)")
+                 {"intcast": "a truncation before the sink's own rounding makes floor/ceil/around results wrong (double quantization)",
+                  "round": "a second rounding besides the sink's", "adjust": "a number of LSBs is added to the code inside the kernel (a hand-made rounding): the exact quotient/result is altered before the sink quantizes it",
+                  "recast": "re-casting operand codes to another machine integer type reinterprets negative codes (int64 -> uint64 wraps) or narrows them"}.get(badev[0][0]) if badev else None)
 
 
 def _nocoerce_path(prog, f, call):
@@ -400,8 +406,310 @@ def alignment_exponents_nonneg(ck, rule, results, names, nfrac_of):
                 shifts.append((p, n))
         for p, n in shifts:
             e = p.subst({("v", "n_frac"): nf})
-            good = nonneg(e, Facts(nonneg_syms=("x.n_int_plus", )))
+            good = nonneg(e, Facts(nonneg_syms=("x.n_word", "y.n_word"), ge=[(Term.var("x.n_word"), Term.const(1)), (Term.var("y.n_word"), Term.const(1))]))
             ck.saw(terms=1)
             ck.check(good, rule, k, "with optimal sizing the alignment exponent of %s is non-negative (integer arithmetic, no rounding)" % fn,
                      "exponent %s = %s under optimal n_frac" % (p.show(), e.show()), n,
                      "a negative exponent multiplies codes by a fraction: the kernel rounds")
+
+
+# =========================================================================== room (ordering) rules
+
+def _sizes_for(ck, rule, f, w, call):
+    al = operand_alias(f, w, call)
+    r = optimal_sizes(ck, ck.prog, f, call, alias=al)
+    if r is None or isinstance(r, str):
+        ck.bad(rule, f, "%s packs an optimal size for its result" % f.name, "optimal_size %s" % r, call,
+               "without it the result takes the operand's own size and overflows at the extremes")
+        return None
+    sg, nw, ni, nf, pf = r
+    wf = wellformed(["x", "y"])
+    return sg, ni.subst(wf), nf.subst(wf), pf
+
+
+def _ge(ck, rule, f, node, lhs, rhs, what, meaning, facts=None):
+    d = lhs - rhs
+    ck.saw(terms=1)
+    good = nonneg(d, facts or Facts())
+    if good:
+        ck.ok(rule, f, what, node)
+        return True
+    # is it provably violated on the grid?  (reporting a witness; the decision itself is 'not provable')
+    w = None
+    try:
+        syms = sorted(set(d.symbols()))
+        from itertools import product as _p
+        atoms = {x[1]: x[0] for x in d.all_atoms() if x[0] in ("v", "b", "p")}
+        doms = [((0, 1) if atoms.get(s) in ("b", "p") else (1, 2, 3, 5, 8)) for s in syms]
+        for vals in _p(*doms):
+            env = dict(zip(syms, vals))
+            try:
+                v = d.evaluate(env)
+            except Exception:
+                continue
+            if v < 0:
+                w = {"assignment": {k: int(x) for k, x in env.items()}, "shortfall_bits": str(-v)}
+                break
+    except Exception:
+        pass
+    if w is not None:
+        ck.bad(rule, f, what, "have %s, need at least %s" % (lhs.show(), rhs.show()), node, {"witness": w, "meaning": meaning})
+    else:
+        ck.unsure(rule, f, what, node, "cannot order %s >= %s with the fact table" % (lhs.show(), rhs.show()))
+    return False
+
+
+def division_room(ck, rule):
+    """C09.R3: optimal sizes of truediv / floordiv / mod leave room for every quotient / remainder."""
+    prog = ck.prog
+    xs, ys = Term.bvar("x.signed"), Term.bvar("y.signed")
+    wf = wellformed(["x", "y"])
+    xi, yi = wf[("v", "x.n_int")], wf[("v", "y.n_int")]
+    xf, yf = Term.var("x.n_frac"), Term.var("y.n_frac")
+    for f, w, call in public_functions(prog):
+        if f.name not in ("truediv", "floordiv", "mod"):
+            continue
+        r = _sizes_for(ck, rule, f, w, call)
+        if r is None:
+            continue
+        sg, ni, nf, pf = r
+        if f.name in ("truediv", "floordiv"):
+            _ge(ck, rule, f, call, sg, t_or(xs, ys), "%s: the result is signed when an operand is signed" % f.name, "negative quotients are lost")
+            _ge(ck, rule, f, call, ni, xi + yf + xs * ys,
+                "%s: n_int >= x.n_int + y.n_frac + [both signed] (largest |x| over smallest |y|; only (-)/(-) reaches +2^(x.n_int+y.n_frac))" % f.name,
+                "the extreme quotient min/(-LSB) overflows")
+            if f.name == "floordiv":
+                _ge(ck, rule, f, call, nf, Term.const(0), "floordiv: the integer quotient is representable (n_frac >= 0)", "integer quotients are rounded")
+        else:
+            _ge(ck, rule, f, call, sg, ys, "mod: the result is signed when the divisor is signed (remainder takes the divisor's sign)", "negative remainders are lost")
+            # result signed  -> n_int >= y.n_int ; both unsigned -> n_int >= min(x.n_int, y.n_int)
+            need = ite(t_or(xs, ys), yi, tmin(xi, yi))
+            _ge(ck, rule, f, call, ni, need, "mod: n_int >= y.n_int (|x%y| < |y|), or >= min(x.n_int, y.n_int) when both operands are unsigned",
+                "a remainder close to the divisor does not fit")
+            _ge(ck, rule, f, call, nf, tmax(xf, yf), "mod: n_frac >= max(x.n_frac, y.n_frac) (the remainder lies on the finer grid)", "the remainder is rounded")
+        GROWTH[f.name] = (sg, ni, nf)
+
+
+def division_operators(ck, rule, results):
+    """C09.R2: quotients are formed by integer floor division of codes, remainders by % on equally scaled codes."""
+    prog = ck.prog
+    for q, (t, events, ret, pf) in sorted(results.items()):
+        k = prog.funcs[q]
+        fn = k.parent.name
+        if fn not in ("truediv", "floordiv", "mod"):
+            continue
+        td = [e for e in events if e[0] == "truediv"]
+        ck.check(not td, rule, k, "%s forms its result with integer operations on codes (no true division)" % k.name,
+                 "true division inside the raw kernel: %s" % (src(td[0][1])[:80] if td else ""), pf.ret_stmt,
+                 "a float quotient loses exactness beyond 53 bits and is rounded, not floored")
+        ops_ = {type(n.op).__name__ for n in ast.walk(ret) if isinstance(n, ast.BinOp)}
+        if fn in ("truediv", "floordiv"):
+            ck.check("FloorDiv" in ops_, rule, k, "%s divides codes with // (floor)" % k.name, "no floor division in %s" % k.name, pf.ret_stmt)
+        else:
+            ck.check("Mod" in ops_, rule, k, "%s takes the remainder with %% on aligned codes" % k.name, "no %% in %s" % k.name, pf.ret_stmt)
+
+
+def reduction_room(ck, rule):
+    """C15.R3: optimal sizes of sum/cumsum/trace/prod/cumprod/dot hold the result when every element is extreme."""
+    prog = ck.prog
+    xs, ys = Term.bvar("x.signed"), Term.bvar("y.signed")
+    wf = wellformed(["x", "y"])
+    xi, yi = wf[("v", "x.n_int")], wf[("v", "y.n_int")]
+    xf, yf = Term.var("x.n_frac"), Term.var("y.n_frac")
+    seen = set()
+    for f, w, call in public_functions(prog):
+        nm = f.name
+        if nm not in ("sum", "cumsum", "trace", "prod", "cumprod", "dot"):
+            continue
+        seen.add(nm)
+        r = _sizes_for(ck, rule, f, w, call)
+        if r is None:
+            continue
+        sg, ni, nf, pf = r
+        GROWTH[nm] = (sg, ni, nf)
+        if nm in ("sum", "cumsum", "trace"):
+            _ge(ck, rule, f, call, sg, xs, "%s: the result is signed when the operand is" % nm, "negative sums are lost")
+            _ge(ck, rule, f, call, nf, xf, "%s: n_frac >= x.n_frac" % nm, "sums are rounded")
+            # n_int = x.n_int + clog2(A) with A an over-estimate of the number of addends
+            extra = ni - xi
+            cl = [a for a in extra.atoms() if a[0] == "f" and a[1] == "clog2"]
+            okcount = False
+            if len(cl) == 1:
+                arg = cl[0][2][0]
+                names = arg.symbols()
+                okcount = arg == Term.var("x.size") or (nm == "trace" and len(names) == 1 and "diagonal" in names[0] and names[0].rstrip(">").endswith(".size"))
+                rest = extra - Term.atom(cl[0])
+                okcount = okcount and nonneg(rest)
+            ck.check(okcount, rule, f, "%s: n_int >= x.n_int + ceil(log2(N)) with N at least the number of addends (%s)" % (nm, "diagonal length" if nm == "trace" else "x.size bounds every axis length"),
+                     "n_int - x.n_int = %s" % extra.show(), call, "N extreme elements sum to N*2^x.n_int, which needs ceil(log2 N) more integer bits")
+        elif nm in ("prod", "cumprod"):
+            # unify the count symbol
+            cnt_atoms = [a for a in (ni.all_atoms() | nf.all_atoms()) if a[0] == "v" and (a[1] == "x.size" or a[1].startswith("x.shape["))]
+            N = Term.var("N")
+            m = {a: N for a in cnt_atoms}
+            ni2, nf2, sg2 = ni.subst(m), nf.subst(m), sg.subst(m)
+            _ge(ck, rule, f, call, sg2, xs, "%s: the result is signed when the operand is" % nm, "negative products are lost")
+            okall = True
+            for case, sub, facts in (("N = 1", {("v", "N"): Term.const(1)}, Facts()),
+                                     ("N >= 2", {("v", "N"): Term.var("M") + 2}, Facts(nonneg_syms=("M",) + (("x.n_int*",) if False else ())))):
+                if nm == "cumprod":
+                    facts = Facts(nonneg_syms=("M", "x.n_frac"))
+                lhs_i = ni2.subst(sub)
+                need_i = (N * xi).subst(sub) + (xs if case != "N = 1" else Term.const(0))
+                lhs_f = nf2.subst(sub)
+                need_f = (N * xf).subst(sub)
+                okall &= _ge(ck, rule, f, call, lhs_i, need_i, "%s (%s): n_int >= N*x.n_int + [signed and N >= 2] ((-2^i)^N = +2^(N*i) for even N)" % (nm, case),
+                             "an even number of most-negative elements multiplies to +2^(N*n_int), one past the maximum", facts)
+                okall &= _ge(ck, rule, f, call, lhs_f, need_f, "%s (%s): n_frac >= N*x.n_frac (every product bit is kept)" % (nm, case), "the product is rounded", facts)
+            if nm == "cumprod":
+                ck.note("cumprod room is decided for x.n_frac >= 0 and the final prefix; shorter prefixes need x.n_int >= 0 (assumed as in the property's quantifier)")
+        elif nm == "dot":
+            _ge(ck, rule, f, call, sg, t_or(xs, ys), "dot: the result is signed when an operand is signed", "negative results are lost")
+            _ge(ck, rule, f, call, nf, xf + yf, "dot: n_frac >= x.n_frac + y.n_frac", "products are rounded")
+            extra = ni - xi - yi
+            cl = [a for a in extra.atoms() if a[0] == "f" and a[1] == "clog2"]
+            okc = False
+            if len(cl) == 1:
+                arg = cl[0][2][0]
+                okc = arg == Term.var("x.shape[-1]") or arg == Term.var("y.shape[0]")
+                rest = extra - Term.atom(cl[0]) - xs * ys
+                okc = okc and nonneg(rest)
+            ck.check(okc, rule, f, "dot: n_int >= x.n_int + y.n_int + ceil(log2 K) + [both signed], K = x.shape[-1] the number of accumulated products",
+                     "n_int - x.n_int - y.n_int = %s" % extra.show(), call, "K extreme products sum to K*2^(x.n_int+y.n_int)")
+    for nm in ("sum", "cumsum", "trace", "prod", "cumprod", "dot"):
+        if nm not in seen:
+            ck.bad(rule, "fxpmath/functions.py", "%s goes through the sizing wrapper" % nm, "functions.%s not found or does not call a wrapper" % nm)
+
+
+def routes_converge(ck, rule):
+    """C15.R1: each ndarray-style method resolves to the functions entry that @implements(np.<name>) registers and forwards
+    axis/out/out_like/sizing/method."""
+    prog = ck.prog
+    table = {"sum": ("sum", "np.sum"), "cumsum": ("cumsum", "np.cumsum"), "prod": ("prod", "np.prod"), "cumprod": ("cumprod", "np.cumprod"),
+             "dot": ("dot", "np.dot"), "trace": ("trace", "np.trace"), "max": ("fxp_max", "np.max"), "min": ("fxp_min", "np.min"),
+             "clip": ("clip", "np.clip"), "transpose": ("transpose", "np.transpose"), "diagonal": ("diagonal", "np.diagonal")}
+    # registry: decorators
+    reg = {}
+    for q, f in prog.funcs.items():
+        if f.module == "functions" and f.parent is None:
+            for d in f.node.decorator_list:
+                if isinstance(d, ast.Call) and dotted(d.func) == "implements":
+                    for a in d.args:
+                        reg.setdefault(dotted(a), []).append(f.name)
+    for meth, (fn, npname) in sorted(table.items()):
+        m = prog.func("objects.Fxp." + meth, required=False)
+        if m is None:
+            ck.bad(rule, "objects.Fxp", "method %s exists" % meth, "method %s missing" % meth)
+            continue
+        ck.saw(m)
+        regs = reg.get(npname, [])
+        ck.check(regs == [fn], rule, "fxpmath/functions.py", "%s is implemented by functions.%s (and only it)" % (npname, fn), "%s registered for %s" % (regs, npname), None,
+                 "numpy dispatch and the method would run different code")
+        rets = [n for n in ast.walk(m.node) if isinstance(n, ast.Return)]
+        good = False
+        for rt in rets:
+            if isinstance(rt.value, ast.Call) and prog.resolve_call(m, rt.value) == "functions." + fn:
+                c = rt.value
+                good = True
+                if not (c.args and dotted(c.args[0]) == "self"):
+                    ck.bad(rule, m, "%s passes self as the operand" % meth, src(c)[:80], rt)
+                for k_ in ("out", "out_like", "sizing", "method"):
+                    v = kw(c, k_)
+                    ck.check(v is not None and dotted(v) == k_, rule, m, "%s forwards %s" % (meth, k_), "%s=%s" % (k_, src(v) if v is not None else None), rt, nontrivial=False)
+                for p in m.params:
+                    if p in ("self", "x"):
+                        continue
+                    v = kw(c, p)
+                    ck.check(v is not None and dotted(v) == p, rule, m, "%s forwards its %s argument" % (meth, p), "%s=%s" % (p, src(v) if v is not None else None), rt)
+                # defaults popped from config
+                for n in ast.walk(m.node):
+                    if isinstance(n, ast.Assign) and isinstance(n.value, ast.Call) and dotted(n.value.func) == "kwargs.pop" and len(n.value.args) == 2:
+                        key = const_str(n.value.args[0])
+                        want = {"out": "self.config.op_out", "out_like": "self.config.op_out_like", "sizing": "self.config.op_sizing", "method": "self.config.op_method"}.get(key)
+                        if want and not (meth == "dot" and key == "sizing"):
+                            ck.check(dotted(n.value.args[1]) == want, rule, m, "%s takes the default of %s from its configuration" % (meth, key), src(n)[:80], n, nontrivial=False)
+        ck.check(good, rule, m, "Fxp.%s returns functions.%s(self, ...)" % (meth, fn), "Fxp.%s does not call functions.%s" % (meth, fn), m.node,
+                 "the method and numpy routes compute different things")
+    # sort: in place on the codes (documented exception) and np.sort -> functions.sort
+    ck.check(reg.get("np.sort") == ["sort"], rule, "fxpmath/functions.py", "np.sort is implemented by functions.sort", "%s" % reg.get("np.sort"))
+    ck.extra["registry"] = {k: v for k, v in sorted(reg.items())}
+    if len(reg) < 20:
+        raise AnalysisError("numpy registry has only %d entries" % len(reg))
+
+
+def governing_config(ck, rule):
+    """C08.R3: the result of a two-operand function carries the first operand's configuration unless out / out_like is given."""
+    prog = ck.prog
+    w1, w2 = A.wrappers(prog)
+    w = w2
+    ops_ = [p for p in w.params if p in ("x", "y")]
+    okn = 0
+    for pf in fpaths(prog, w):
+        if pf.end != "return" or pf.ret is None:
+            continue
+        r = peel(pf.ret)[0]
+        has_out = [g for g in pf.guards if g[2] is not None and src(g[2]) == "out is not None"]
+        has_like = [g for g in pf.guards if g[2] is not None and src(g[2]) == "out_like is not None"]
+        out_given = bool(has_out and has_out[-1][1])
+        like_given = bool(has_like and has_like[-1][1])
+        if isinstance(r, ast.Call) and isinstance(r.func, ast.Attribute) and r.func.attr == "set_val":
+            recv = peel(r.func.value)[0]
+            base = recv.value if isinstance(recv, ast.Subscript) else recv
+            good = out_given and dotted(base) == "out"
+            ck.check(good, rule, w, "with out=, the result is stored into out itself (under out's configuration)", "set_val receiver %s" % src(r.func.value)[:40], pf.ret_stmt)
+            okn += good
+        elif isinstance(r, ast.Call) and prog.is_fxp_ctor(w, r):
+            cfg = kw(r, "config")
+            like = kw(r, "like")
+            if out_given:
+                ck.bad(rule, w, "with out=, the result is stored into out", "constructs a new object although out is given", pf.ret_stmt)
+                continue
+            if dotted(like) != "out_like":
+                ck.bad(rule, w, "out_like is the template of the result", "like=%s" % (src(like) if like is not None else None), pf.ret_stmt)
+                continue
+            if like_given:
+                good = cfg is None or (isinstance(cfg, ast.Constant) and cfg.value is None)
+                ck.check(good, rule, w, "with out_like=, the result carries the template's configuration (no config override)", "config=%s" % (src(cfg) if cfg is not None else None), pf.ret_stmt)
+            else:
+                good = dotted(cfg) == ops_[0] + ".config"
+                if not good and isinstance(cfg, ast.Attribute) and cfg.attr == "config" and isinstance(cfg.value, ast.Call) and prog.is_fxp_ctor(w, cfg.value) \
+                        and cfg.value.args and dotted(cfg.value.args[0]) == ops_[0]:
+                    good = True     # operand coerced with Fxp(x) on this path
+                ck.check(good, rule, w, "without out/out_like the result inherits the first operand's configuration", "config=%s" % (src(cfg) if cfg is not None else None), pf.ret_stmt,
+                         "rounding/overflow of the result would come from the wrong object (or the defaults)")
+            okn += good
+    if okn == 0:
+        raise AnalysisError("two-operand wrapper: no result sink recognised")
+    ck.note("one-operand wrapper builds results with the default configuration (its `config` local is unused) - outside C08's operators")
+
+
+def arg_forwarding(ck, rule):
+    """C15.R1 (argument part): the numpy-style arguments of each function reach the kernel unchanged
+    (kwargs['axis'] = axis, or passed by keyword to the wrapper)."""
+    prog = ck.prog
+    fwd = ("axis", "axes", "offset", "axis1", "axis2", "a_min", "a_max", "newshape", "order")
+    n = 0
+    for f, w, call in public_functions(prog):
+        for p in f.params:
+            if p not in fwd:
+                continue
+            n += 1
+            stores = []
+            for node in ast.walk(f.node):
+                if isinstance(node, ast.Assign):
+                    for t in node.targets:
+                        if isinstance(t, ast.Subscript) and dotted(t.value) == "kwargs" and const_str(t.slice) == p:
+                            stores.append(node)
+            direct = kw(call, p)
+            if stores:
+                good = all(dotted(s.value) == p for s in stores)
+                ck.check(good, rule, f, "%s forwards its %s argument unchanged to the computation" % (f.name, p), "kwargs[%r] = %s" % (p, src(stores[0].value)), stores[0],
+                         "the caller's %s is replaced (e.g. axis=None silently becomes another axis)" % p)
+            elif direct is not None:
+                ck.check(dotted(direct) == p, rule, f, "%s forwards its %s argument unchanged" % (f.name, p), "%s=%s" % (p, src(direct)), call)
+            else:
+                # used by a nested kernel through closure?
+                used = any(isinstance(nn, ast.Name) and nn.id == p for g in f.nested.values() for nn in ast.walk(g.node))
+                ck.check(used, rule, f, "%s uses its %s argument" % (f.name, p), "%s never reaches the computation" % p, f.node)
+    if n < 10:
+        raise AnalysisError("only %d forwarded numpy arguments found" % n)
